@@ -18,7 +18,7 @@ func init() { register(&Spec{ID: "C20", Targets: []load.Target{load.Linux}, Run:
 
 func runC20(c *core.Ctx) {
 	runFixtures(c, "drop")
-	c.Explain("Whether the conformance suite fails on each of ~60 deviant file systems is a statement about executions (mutation adequacy) and cannot be decided without running the suite, which this family may not do. Decided are properties of the suite's own code whose violation makes it blind: (R20.1) every exported scenario func Test*(testing.TB, FSOptions) of package fstest is registered in the FS or File runner; (R20.2) every exported internal/assert helper and every FSOptions.assert* method returning bool reports through tb.Error/Errorf/Fatal* (or a helper that does) on every path that returns false, and has at least one such path; (R20.3) mode comparisons keep all bits when Constraints.FileModeMask is its zero value ('disables checks on the specified bits, defaults to checking all'); (R20.4) the final-tree comparison is an equality, not a subset test; (R20.5) the skip data is collected after the parallel subtests have run; (R20.6) package fstest writes no package-level variable outside init (the verdict depends only on the FS under test). The property itself (acceptance of the references, rejection of deviants) is NOT claimed.")
+	c.Explain("Whether the conformance suite fails on each of ~60 deviant file systems is a statement about executions (mutation adequacy) and cannot be decided without running the suite, which this family may not do. Decided are properties of the suite's own code whose violation makes it blind: (R20.1) every exported scenario func Test*(testing.TB, FSOptions) of package fstest is registered in the FS or File runner; (R20.2) every exported internal/assert helper and every FSOptions.assert* method returning bool reports through tb.Error/Errorf/Fatal* (or a helper that does) on every path that returns false, and has at least one such path; (R20.3) mode comparisons keep all bits when Constraints.FileModeMask is its zero value ('disables checks on the specified bits, defaults to checking all'); (R20.4) the final-tree comparison is an equality, not a subset test; (R20.5) the skip data is collected after the parallel subtests have run; (R20.6) package fstest writes no package-level variable outside init (the verdict depends only on the FS under test); (R20.7) no subtest closure that goes parallel captures a loop variable that is one cell shared by all iterations under the module's language version (< go1.22) — such subtests all run against the last table row and the other rows are never checked; (R20.8) the helpers comparing an error with an expected *PathError/*LinkError type-assert the error value itself and do not search its chain with errors.As; (R20.9) the harness that runs tasks concurrently starts all goroutines before it waits (no WaitGroup.Wait inside the starting loop). The property itself (acceptance of the references, rejection of deviants) is NOT claimed.")
 	c.Assume("testing.TB.Error/Errorf/Fatal/Fatalf/FailNow/Fail mark the test failed")
 	c.RuleDoc("R20.1", "every scenario is registered")
 	c.RuleDoc("R20.2", "assertion helpers can fail and always report")
@@ -26,6 +26,9 @@ func runC20(c *core.Ctx) {
 	c.RuleDoc("R20.4", "final-tree comparison is an equality")
 	c.RuleDoc("R20.5", "skip data read after subtests ran")
 	c.RuleDoc("R20.6", "no mutable package state")
+	c.RuleDoc("R20.8", "error-type comparisons assert the error's own dynamic type (no errors.As)")
+	c.RuleDoc("R20.9", "goroutines started in a loop are awaited after the loop")
+	c.RuleDoc("R20.7", "parallel subtest closures capture no loop variable shared between iterations")
 	for _, p := range c.Progs {
 		c.SetProg(p)
 		pk := p.SSAPkg("fstest")
@@ -39,6 +42,9 @@ func runC20(c *core.Ctx) {
 		r20TreeCompare(c, p)
 		r20SkipTiming(c, p)
 		r20Globals(c, p, pk)
+		r20LoopCapture(c, p)
+		r20ErrType(c, p)
+		r20Concurrent(c, p)
 	}
 	c.Floor("R20.1", 30)
 	c.Floor("R20.2", 15)
@@ -46,6 +52,9 @@ func runC20(c *core.Ctx) {
 	c.Floor("R20.4", 1)
 	c.Floor("R20.5", 2)
 	c.Floor("R20.6", 1)
+	c.Floor("R20.7", 3)
+	c.Floor("R20.8", 2)
+	c.Floor("R20.9", 1)
 }
 
 func r20Registered(c *core.Ctx, p *load.Program, pk *ssa.Package) {
@@ -344,4 +353,199 @@ func r20Globals(c *core.Ctx, p *load.Program, pk *ssa.Package) {
 	}
 	c.Check(len(writes) == 0, "R20.6", "fstest|no-mutable-globals", "-", "no package-level variable is written outside init",
 		"package fstest writes package-level state ("+strings.Join(writes, "; ")+"): the verdict of one run can depend on earlier runs")
+}
+
+// reachesParallel: fn (or a module function it calls, two levels) calls a method named Parallel.
+func reachesParallel(p *load.Program, fn *ssa.Function, depth int, seen map[*ssa.Function]bool) bool {
+	if fn == nil || fn.Blocks == nil || depth > 3 || seen[fn] {
+		return false
+	}
+	seen[fn] = true
+	found := false
+	ssax.Instrs(fn, func(ins ssa.Instruction) {
+		ci, ok := ins.(ssa.CallInstruction)
+		if !ok || found {
+			return
+		}
+		cm := ci.Common()
+		if cm.IsInvoke() && cm.Method.Name() == "Parallel" {
+			found = true
+			return
+		}
+		if callee := ssax.StaticCallee(ci); callee != nil {
+			if callee.Name() == "Parallel" {
+				found = true
+			} else if p.InModule(callee) && reachesParallel(p, callee, depth+1, seen) {
+				found = true
+			}
+		}
+	})
+	return found
+}
+
+// r20LoopCapture (R20.7): a subtest closure that goes parallel must not read a loop variable shared by all
+// iterations. Under the module's language version (< go1.22) a range variable captured by a closure is one
+// heap cell allocated before the loop; a parallel subtest pauses until the loop has finished, so every subtest
+// then sees the last table row and the other rows are never exercised.
+func r20LoopCapture(c *core.Ctx, p *load.Program) {
+	for _, fn := range pkgFuncs(p, "fstest") {
+		if fn.Blocks == nil {
+			continue
+		}
+		// blocks on a cycle through b
+		reach := func(from *ssa.BasicBlock) map[*ssa.BasicBlock]bool {
+			seen := map[*ssa.BasicBlock]bool{}
+			var st []*ssa.BasicBlock
+			st = append(st, from.Succs...)
+			for len(st) > 0 {
+				b := st[len(st)-1]
+				st = st[:len(st)-1]
+				if seen[b] {
+					continue
+				}
+				seen[b] = true
+				st = append(st, b.Succs...)
+			}
+			return seen
+		}
+		ord := ordinals{}
+		ssax.Instrs(fn, func(ins ssa.Instruction) {
+			mc, ok := ins.(*ssa.MakeClosure)
+			if !ok {
+				return
+			}
+			cf, _ := mc.Fn.(*ssa.Function)
+			if cf == nil || !reachesParallel(p, cf, 0, map[*ssa.Function]bool{}) {
+				return
+			}
+			key := fname(fn) + "|" + ord.next("parallel-closure")
+			b := mc.Block()
+			mpos := mc.Pos()
+			if !mpos.IsValid() {
+				mpos = cf.Pos()
+			}
+			from := reach(b)
+			if !from[b] {
+				c.OKTrivial("R20.7", key, p.Pos(mpos), "parallel subtest closure is not created in a loop")
+				return
+			}
+			bad := ""
+			for _, bind := range mc.Bindings {
+				a, ok := bind.(*ssa.Alloc)
+				if !ok || !a.Heap {
+					continue
+				}
+				if from[a.Block()] && reach(a.Block())[b] {
+					continue // allocated per iteration (inside the loop)
+				}
+				// shared cell: is it written inside the loop?
+				stores, _ := ssax.CellStores(a)
+				for _, st := range stores {
+					if from[st.Block()] {
+						bad = a.Comment
+						if bad == "" {
+							bad = a.Name()
+						}
+					}
+				}
+			}
+			c.Check(bad == "", "R20.7", key, p.Pos(mpos), "the parallel subtest closure captures only per-iteration variables",
+				fmt.Sprintf("%s: a subtest closure that calls Parallel captures the loop variable %q, one cell shared by all iterations (module language version < go1.22): the parallel subtests run after the loop has ended and all see the last table row — the other rows are never checked against the file system under test", fname(fn), bad))
+		})
+	}
+}
+
+// r20ErrType (R20.8): the helpers that compare an error with an expected *PathError / *LinkError establish the
+// dynamic type of the error itself (type assertion / IsType on the value) and never search its chain with
+// errors.As, which would accept any foreign error that merely wraps a correct one.
+func r20ErrType(c *core.Ctx, p *load.Program) {
+	for _, fn := range pkgFuncs(p, "fstest") {
+		if fn.Parent() != nil {
+			continue
+		}
+		var expected, actual *ssa.Parameter
+		for _, prm := range fn.Params {
+			ts := typeString(prm.Type())
+			if strings.HasSuffix(ts, "PathError") || strings.HasSuffix(ts, "LinkError") {
+				expected = prm
+			}
+			if ssax.IsErrorType(prm.Type()) {
+				actual = prm
+			}
+		}
+		if expected == nil || actual == nil {
+			continue
+		}
+		key := fname(fn) + "|error-type-check"
+		asserted, searched := false, false
+		ssax.InstrsDeep(fn, func(_ *ssa.Function, ins ssa.Instruction) {
+			switch x := ins.(type) {
+			case *ssa.TypeAssert:
+				if x.X == ssa.Value(actual) && types.Identical(x.AssertedType, expected.Type()) {
+					asserted = true
+				}
+			case *ssa.Call:
+				if ssax.CalleeIs(x, "errors", "As") && len(x.Call.Args) > 0 && x.Call.Args[0] == ssa.Value(actual) {
+					searched = true
+				}
+			}
+		})
+		switch {
+		case searched:
+			c.Bad("R20.8", key, p.Pos(fn.Pos()), fmt.Sprintf("%s looks for the expected error type with errors.As: a file system returning a foreign error type that merely wraps a correct %s is accepted although the scenarios promise the error IS of that type", fname(fn), typeString(expected.Type())))
+		case !asserted:
+			c.Bad("R20.8", key, p.Pos(fn.Pos()), fmt.Sprintf("%s never asserts that the actual error has the dynamic type %s", fname(fn), typeString(expected.Type())))
+		default:
+			c.OK("R20.8", key, p.Pos(fn.Pos()), "the actual error's own dynamic type is asserted")
+		}
+	}
+}
+
+// r20Concurrent (R20.9): a loop that starts goroutines does not wait for them inside the loop — otherwise the
+// "concurrent" scenarios run one task at a time and no interleaving of the file system under test is exercised.
+func r20Concurrent(c *core.Ctx, p *load.Program) {
+	for _, fn := range pkgFuncs(p, "fstest") {
+		if fn.Blocks == nil {
+			continue
+		}
+		reach := func(from *ssa.BasicBlock) map[*ssa.BasicBlock]bool {
+			seen := map[*ssa.BasicBlock]bool{}
+			st := append([]*ssa.BasicBlock{}, from.Succs...)
+			for len(st) > 0 {
+				b := st[len(st)-1]
+				st = st[:len(st)-1]
+				if seen[b] {
+					continue
+				}
+				seen[b] = true
+				st = append(st, b.Succs...)
+			}
+			return seen
+		}
+		ord := ordinals{}
+		ssax.Instrs(fn, func(ins ssa.Instruction) {
+			g, ok := ins.(*ssa.Go)
+			if !ok {
+				return
+			}
+			from := reach(g.Block())
+			if !from[g.Block()] {
+				return // not in a loop
+			}
+			key := fname(fn) + "|" + ord.next("go-in-loop")
+			bad := ""
+			for b := range from {
+				if !reach(b)[g.Block()] {
+					continue // not on the cycle
+				}
+				for _, i2 := range b.Instrs {
+					if cl, ok := i2.(*ssa.Call); ok && ssax.CalleeIs(cl, "sync", "(*WaitGroup).Wait") {
+						bad = p.Pos(cl.Pos())
+					}
+				}
+			}
+			c.Check(bad == "", "R20.9", key, p.Pos(g.Pos()), "the goroutines started by this loop are awaited after the loop",
+				fmt.Sprintf("%s waits for its goroutines inside the loop that starts them (%s): the tasks run strictly one after another and the concurrent scenarios exercise no interleaving — a file system that fails only under overlap passes", fname(fn), bad))
+		})
+	}
 }
